@@ -95,6 +95,10 @@ func switchToParentThread(L *LState, nargs int, haserror bool, kill bool) {
 	L.XMoveTo(parent, nargs)
 	L.stack.Pop()
 	offset := L.currentFrame.LocalBase - L.currentFrame.ReturnBase
+	L.yieldTop = 0
+	if !kill && L.currentFrame.NRet != MultRet {
+		L.yieldTop = L.currentFrame.ReturnBase + L.currentFrame.NRet + 1
+	}
 	L.currentFrame = L.stack.Last()
 	L.reg.SetTop(L.reg.Top() - offset) // remove 'yield' function(including tailcalled functions)
 	if kill {
@@ -133,6 +137,11 @@ func callGFunction(L *LState, tailcall bool) bool {
 func threadRun(L *LState) {
 	if L.stack.IsEmpty() {
 		return
+	}
+	if L.yieldTop > 0 {
+		// the pending yield was called for a fixed number of results: missing ones are nil, surplus ones dropped
+		L.reg.SetTop(L.yieldTop - 1)
+		L.yieldTop = 0
 	}
 
 	defer func() {
